@@ -419,7 +419,25 @@ def run_property(plan: Plan, tier: str, seed: int, contracts_mod_names, replay=N
     for qn in plan.functions:
         c = S.CONTRACTS.get(qn)
         if c is not None:
+            short = qn.split(":", 1)[1]
             assumptions.extend(f"{qn}: {a}" for a in c.assumptions)
+            # every summary (assumed effect of a statement that is not executed symbolically) and every assumed contract of
+            # an external callable is an unchecked assumption of this proof
+            for key, sm in c.summaries.items():
+                eff = "; ".join(sm.assume) if sm.assume else "no effect on the modelled state"
+                assumptions.append(f"summary in {short}, statement `{key}`: {sm.note or 'unmodelled statement'} [assumed: {eff}]")
+            for name, oc in c.opaque.items():
+                post = "; ".join(cl.expr for cl in oc.ensures) or "no post-condition"
+                for a in (oc.assumptions or ["assumed contract of an external callable"]):
+                    assumptions.append(f"external `{name}` as used by {short}: {a} [assumed: {post}]")
+            if not c.i64 and c.block is None and not c.fields and not c.attrs:
+                pass
+    for ln in plan.lemmas:
+        lm = S.LEMMAS.get(ln)
+        if lm is not None and lm.assumed:
+            assumptions.append(f"axiom {ln}: {lm.concl} [{lm.note}]")
+    seen_a = set()
+    assumptions = [a for a in assumptions if not (a in seen_a or seen_a.add(a))]
     coverage = {
         "obligations": n_obl, "discharged": n_dis,
         "checker_cmd": f"./check {pid} --tier {tier}  (pyvc: AST of /repo functions -> VCs -> z3 {smt.z3.get_version_string()}"
